@@ -5,9 +5,9 @@ branch by branch (same loop order, same comparisons, same early exits), over the
 ordered container (go-radix `WalkPrefix`, bbolt cursor, sorted directory names) presents.
 
 * `inmemList`    — sdk/physical/inmem/inmem.go `listPaginatedInternal`
-* `pathClean`, `joinPath` — `path/filepath.Clean` / `filepath.Join` (unix), used by the raft seek
-* `raftSeek`, `raftList` — internal/physical/raft/fsm.go `listPageInner`
-* `raftTxnList`  — internal/physical/raft/transaction.go `RaftTransaction.ListPage` (no prefix fallback; merge of
+* `raftSeek`, `raftList` — internal/physical/raft/fsm.go `listPageInner` (cursor start `prefix + after` since the
+                   repair of F4/F9/F40; before it, `filepath.Join(prefix, after)` with a fallback to the prefix)
+* `raftTxnList`  — internal/physical/raft/transaction.go `RaftTransaction.ListPage` (same cursor start; merge of
                    pending updates / deletions)
 * `fileList`     — sdk/physical/file/file.go `ListPageInternal` (sorted names, `sort.SearchStrings`)
 * key checks of the wrapping layers: `containsDotDot` (physical.View, file), `isRelativePath`
@@ -46,7 +46,7 @@ def inmemWalk (p after : Key) (limit : Int) : List Key → List Key → List Key
 def inmemList (keys : List Key) (p after : Key) (limit : Int) : List Key :=
   (inmemWalk p after limit (keys.filter (hasPrefix p)) [] []).reverse
 
-/-! ### filepath.Clean / filepath.Join (unix) -/
+/-! ### path segments -/
 
 /-- `strings.Split(s, "/")` -/
 def splitSlash : Key → List Key
@@ -57,43 +57,10 @@ def splitSlash : Key → List Key
       | [] => [[c]]
       | s :: ss => (c :: s) :: ss
 
-/-- one path element processed by `Clean`; `stack` holds the elements written so far, most recent first.
-Empty and `.` elements are dropped; `..` removes the previous element when there is one that is not itself a
-retained `..`, is dropped at the root, and is retained otherwise. -/
-def cleanStep (rooted : Bool) (stack : List Key) (seg : Key) : List Key :=
-  if seg = [] ∨ seg = [dot] then stack
-  else if seg = [dot, dot] then
-    match stack with
-    | [] => if rooted then [] else [[dot, dot]]
-    | top :: rest => if top = [dot, dot] then (if rooted then stack else [dot, dot] :: stack) else rest
-  else seg :: stack
-
-def joinSlash : List Key → Key
-  | [] => []
-  | [s] => s
-  | s :: r => s ++ slash :: joinSlash r
-
-def pathClean (s : Key) : Key :=
-  if s = [] then [dot] else
-  let rooted := s.head? = some slash
-  let stack := (splitSlash s).foldl (cleanStep rooted) []
-  if rooted then slash :: joinSlash stack.reverse
-  else if stack = [] then [dot] else joinSlash stack.reverse
-
-/-- `filepath.Join(prefix, after)`: empty elements are ignored, the rest joined with `/` and cleaned -/
-def joinPath (p after : Key) : Key :=
-  if p ≠ [] then pathClean (p ++ slash :: after)
-  else if after ≠ [] then pathClean after
-  else []
-
 /-! ### raft FSM -/
 
-/-- the cursor start of `listPageInner`, including the fallback to the prefix when the joined path left it -/
-def raftSeek (p after : Key) : Key :=
-  if after = [] then p
-  else
-    let j := joinPath p after
-    if hasPrefix p j then j else p
+/-- the cursor start of `listPageInner` and of `RaftTransaction.ListPage`: `[]byte(prefix + after)` -/
+def raftSeek (p after : Key) : Key := p ++ after
 
 /-- the cursor loop of `listPageInner`; `keys` reversed (its head is `keys[len(keys)-1]`) -/
 def raftLoop (p after : Key) (limit : Int) : List Key → List Key → List Key
@@ -121,10 +88,6 @@ def raftListFrom (seek : Key) (keys : List Key) (p after : Key) (limit : Int) : 
 
 def raftList (keys : List Key) (p after : Key) (limit : Int) : List Key :=
   raftListFrom (raftSeek p after) keys p after limit
-
-/-- the repaired seek discussed in DESIGN section 6 (F4/F9): `prefix + after`, no path cleaning -/
-def raftListFixed (keys : List Key) (p after : Key) (limit : Int) : List Key :=
-  raftListFrom (p ++ after) keys p after limit
 
 /-! ### raft transaction -/
 
@@ -171,7 +134,7 @@ def txnLoop (p after : Key) (limit : Int) (deletions : List Key) : List Key → 
         else txnLoop p after limit deletions rest { out := entry :: out, updates := updates.filter (· ≠ entry) }
 
 def raftTxnList (keys : List Key) (upd : Updates) (p after : Key) (limit : Int) : List Key :=
-  let seek := if after = [] then p else joinPath p after
+  let seek := raftSeek p after
   let inP := upd.filter (fun u => hasPrefix p u.1)
   let vis := inP.filter (fun u => (shouldInclude p after u.1).2.2)
   let deletions := (vis.filter (fun u => u.2.isNone)).map (·.1)
